@@ -571,7 +571,115 @@ def angle_option_rule(ctx, R):
     return n
 
 
+def measurement_rule(ctx, R):
+    """R07.10 — the measurement a box / point contributes is the same vector wherever the filter builds it (initiate,
+    update, distance: contradiction rule between the three sites), every component is the untransformed coordinate
+    (a bare field read; the optional angle defaults to the constant 0), in the order in which the state -> box
+    conversion reads the state back (writer's and reader's tables agree), and initiate starts all velocities at 0.
+    A site that normalises, clamps or defaults a component differently from its siblings makes the innovation
+    z - H m compare two different encodings of the same box."""
+    import wiring
+    n = 0
+    order = None
+    nb = ctx.F.get('utils::bbox::Universal2DBox::new')
+    if len(nb) == 1:
+        pn = wiring.param_names(nb[0])
+        order = [pn.get(k) for k in range(1, 6)]
+    for K, ty, dim in ((BOX, 'bbox::Universal2DBox', 5), (PT, 'OPoint', 2)):
+        per = {}
+        for m in ('initiate', 'update', 'distance'):
+            b = ctx.anchor(R, K + '::' + m)
+            if b is None:
+                continue
+            zs = [k for k in range(1, b.nargs + 1) if ty in b.locals[k]]
+            if len(zs) != 1:
+                ctx.note(R, '%s::%s has no single %s parameter: measurement wiring not evaluated' % (K, m, ty))
+                continue
+            z = zs[0]
+            eb = ExprBuilder(b)
+            cands = []
+            for i in sorted(b.live_blocks()):
+                for si, s_ in enumerate(b.blocks[i]['st']):
+                    if s_['k'] == 'assign' and s_['rv']['k'] == 'agg' and s_['rv'].get('ak') == 'array':
+                        es = [eb.operand(op, at=(i, si)) for op in s_['rv']['ops']]
+                        if sum(1 for e in es if any(p.root == ('param', z) for p in e.places())) >= 2:
+                            cands.append((s_.get('ln'), es))
+            if len(cands) != 1:
+                ctx.note(R, '%s::%s builds its measurement vector in %d array literals: wiring not evaluated' % (
+                    K.rsplit('::', 1)[-1], m, len(cands)))
+                continue
+            ln, es = cands[0]
+            ctx.read(b)
+            comps = []
+            for k, e in enumerate(es):
+                st = e.strip() if e.kind in ('cast',) else e
+                field = None
+                plain = False
+                if st.kind == 'place' and st.root == ('param', z) and len(st.fields) >= 1:
+                    field, plain = st.fields[-1], True
+                elif st.kind == 'call' and st.name.rsplit('::', 1)[-1] == 'unwrap_or' and len(st.args) == 2 and \
+                        st.args[0].strip().kind == 'place' and st.args[0].strip().root == ('param', z):
+                    field = st.args[0].strip().fields[-1]
+                    d = st.args[1]
+                    plain = d.kind == 'const' and d.const_value() in ('0.0', '0', '-0.0')
+                elif st.kind == 'call' and st.name.rsplit('::', 1)[-1] == 'unwrap_or_default' and len(st.args) == 1 and \
+                        st.args[0].strip().kind == 'place' and st.args[0].strip().root == ('param', z):
+                    field, plain = st.args[0].strip().fields[-1], True
+                elif st.kind == 'phi' and len(st.args) == 2 and sorted(x.kind for x in st.args) == ['const', 'place'] and \
+                        [x for x in st.args if x.kind == 'const'][0].const_value() in ('0.0', '0', '-0.0') and \
+                        [x for x in st.args if x.kind == 'place'][0].root == ('param', z):
+                    # match z.angle { Some(a) => a, None => 0.0 }
+                    pl = [x for x in st.args if x.kind == 'place'][0]
+                    fs = [f for f in pl.fields if not f.startswith('as ') and not f.isdigit()]
+                    field, plain = (fs[-1] if fs else '?'), True
+                elif st.kind == 'const':
+                    field = 'const:' + str(st.const_value())
+                    plain = True
+                else:
+                    fs = sorted({p.fields[-1] for p in st.places() if p.root == ('param', z) and p.fields})
+                    field = '/'.join(fs) or '?'
+                comps.append((field, plain, repr(e)))
+            per[m] = (b, ln, comps)
+            for k, (field, plain, txt) in enumerate(comps[:dim]):
+                n += 1
+                ctx.check(plain and not field.startswith('const:'), R, b, '%s:z[%d]-is-the-plain-coordinate' % (m, k), txt,
+                          '%s::%s feeds component %d of the measurement with %s: expected the untransformed coordinate '
+                          '(optional angle: unwrap_or(0.0)); a normalised / clamped / state-dependent value is another '
+                          'encoding than the one update(), distance() and the state -> box conversion use'
+                          % (K.rsplit('::', 1)[-1], m, k, txt), ln)
+                if K == BOX and order and plain:
+                    n += 1
+                    ctx.check(field == order[k], R, b, '%s:z[%d]=%s' % (m, k, order[k]), field,
+                              '%s::%s puts `%s` into component %d of the measurement; the state -> box conversion reads '
+                              'component %d back as `%s`' % (K.rsplit('::', 1)[-1], m, field, k, k, order[k]), ln)
+            if m == 'initiate' and not comps[dim:]:
+                ctx.note(R, '%s::initiate builds positions and velocities separately: velocity clause not evaluated' % K)
+            elif m == 'initiate':
+                n += 1
+                rest = comps[dim:]
+                ctx.check(len(rest) == dim and all(f in ('const:0.0', 'const:0', 'const:-0.0') for f, _, _ in rest), R, b,
+                          'initiate:velocities-start-at-0', str([t for _, _, t in rest]),
+                          'initiate does not start the %d velocity components at the constant 0: %s' % (
+                              dim, [t for _, _, t in rest]), ln)
+        ms = [m for m in ('initiate', 'update', 'distance') if m in per]
+        for m in ms[1:]:
+            a, bq = per[ms[0]], per[m]
+            def canon(f, plain, t):
+                return (f, 'plain') if plain else (f, t.replace('p%d.' % 2, 'z.').replace('p%d.' % 3, 'z.'))
+            ca = [canon(*x) for x in a[2][:dim]]
+            cb = [canon(*x) for x in bq[2][:dim]]
+            n += 1
+            ctx.check(ca == cb, R, bq[0], '%s-and-%s-build-the-same-measurement' % (ms[0], m), str([t for _, t in cb]),
+                      '%s::%s encodes the measurement as %s while %s encodes it as %s: the filter compares two '
+                      'different encodings of the same box' % (K.rsplit('::', 1)[-1], m, [t for _, t in cb], ms[0],
+                                                                 [t for _, t in ca]), bq[1])
+    return n
+
+
 def run(ctx):
+    ctx.rule('R07.10', 'measurement vector: same plain coordinates at initiate / update / distance, in the order the '
+                       'state -> box conversion reads them back; velocities start at 0')
+    ctx.evaluated('R07.10', measurement_rule(ctx, 'R07.10'), 42)
     _ownership(ctx)
     _wiring(ctx)
     ctx.rule('R07.1', 'direct and inverted cost gate on CHI2INV95[dim-1] with the same comparison; value table')
